@@ -215,6 +215,8 @@ POISON = ['x = y_unknown;', 'select any q from instances of NOPE;\nq.a = 1;', 'z
 
 def generate(ctx):
     yield {'schema': True, 'home': 'function', 'prog': [], 'style': 0}
+    for i, text in enumerate(REJECTED):
+        yield {'reject': text, 'home': G.HOMES[i % 3], 'prog': [], 'style': 0}
     # ONE body in several homes of ONE model (every kind of action home), with different leading blank lines / first-line
     # indentation / comments, optionally after an action that FAILED to prebuild in the same model and process:
     # every action must carry the positions, variables and types of its OWN text and home
@@ -560,6 +562,8 @@ class Typer(object):
         self.evdata.add(len(self.params) - 1)
 
 
+KINDED = {'member': 'V_MVL', 'array-length': 'V_ALV'}
+REJECTED = ['n = nosuch.length;', 'x = 1;\ny = undeclared_array.length + x;', 'z = nosuch[0];', 'w = nosuch.x;']
 JUDGED = ('literal', 'boolean-operator', 'cardinality', 'variable', 'attribute', 'parameter')
 
 
@@ -671,7 +675,22 @@ def run_multi(case):
                            'statements': nst}, **dict(('gen_' + k, v) for k, v in (case.get('gstats') or {}).items()))}
 
 
+def run_reject(case):
+    """a body that reads an UNDECLARED name (as array root, structure root, plain value) is not name-resolved: the
+    prebuilder rejects it with its documented exception, it never builds a value for it"""
+    try:
+        _rig.translate(case['home'], case['reject'], False, regenerate=False)
+    except G.OutOfDomain:
+        return {'obs': Sym('rejected'), 'd_fail': [], 'nontrivial': True, 'key': 'reject:' + case['reject'],
+                'stats': {'undeclared_root_rejected': 1}}
+    return {'obs': Sym('accepted'), 'nontrivial': True, 'key': 'reject:' + case['reject'], 'stats': {},
+            'd_fail': [{'sig': 'undeclared-accepted', 'what': 'the body %r reads a name that is declared nowhere; the '
+                        'prebuilder accepted it instead of rejecting it (Unknown transient)' % case['reject']}]}
+
+
 def run_impl(case):
+    if case.get('reject'):
+        return run_reject(case)
     if case.get('schema'):
         return run_schema(case)
     if case.get('multi'):
@@ -727,6 +746,11 @@ def run_impl(case):
         elif key not in ty.ambiguous and exp[0] in JUDGED and exp[1] is not None and tname != exp[1]:
             fail('value-type:' + exp[0], 'the V_VAL of the %s expression at line %s columns %s-%s is typed %s; OAL types it %s'
                  % (exp[0], key[0], key[1], key[2], tname, exp[1]))
+        elif key not in ty.ambiguous and exp[0] in KINDED and (subs != [KINDED[exp[0]]] or tname != exp[1]):
+            # a member of a structured value is a V_MVL typed as the member (also when the member is NAMED length);
+            # `.length` of an array variable is a V_ALV typed integer
+            fail('value-type:' + exp[0], 'the %s expression at line %s columns %s-%s is a %s typed %s; it is a %s typed %s'
+                 % (exp[0], key[0], key[1], key[2], subs, tname, KINDED[exp[0]], exp[1]))
     if sorted((v.LineNumber, v.StartPosition, v.EndPosition) for v in vals) != sorted(ty.value_keys):
         fail('value-count', '%d V_VAL instances for %d expressions of the source, or at other positions'
              % (len(vals), len(ty.value_keys)))
@@ -930,6 +954,8 @@ def _idx(ids, x):
 
 
 def model_line(case):
+    if case.get('reject'):
+        return None
     if case.get('schema'):
         return '(c06-schema)'
     if case.get('multi'):
